@@ -440,9 +440,11 @@ def dispatch_rows(api: Api):
                         m = cs.express_base_scalars(A, B)
                         ident = dict(zip(A.base_scalars, B.base_scalars))
                     else:
-                        pa, pb = api.AppliedPoint(g, A), api.AppliedPoint(g, B)
-                        m = cs.express_base_vectors(A, B, old_args=(pa,), new_args=(pb,))
-                        ident = dict(zip(A.base_vectors(pa), B.base_vectors(pb)))
+                        issys = lambda o: isinstance(o, cs.BaseCoordinateSystem)
+                        oa = (api.AppliedPoint(g, A),) if issys(A) else ()
+                        ob = (api.AppliedPoint(g, B),) if issys(B) else ()
+                        m = cs.express_base_vectors(A, B, old_args=oa, new_args=ob)
+                        ident = dict(zip(A.base_vectors(*oa), B.base_vectors(*ob)))
                     obs = "DIdentity" if dict(m) == ident else "DTable"
                 except TypeError:
                     obs = "DTypeError"
@@ -531,7 +533,7 @@ def run(ctx):
         ctx.sample({"lemma": lm.name, "statement": lm.statement[:300], "item": lm.item})
 
     checks = spec_checks(api)
-    n_pts = ctx.pick(4, 20)
+    n_pts = ctx.pick(4, 60)
     spec_fail = {}
     n_eval = 0
     seen = set()
@@ -557,7 +559,7 @@ def run(ctx):
     n_obl = 0
     E = sp.symbols("E0:3")
     for (a, b) in PAIRS:
-        for _ in range(ctx.pick(3, 8)):
+        for _ in range(ctx.pick(3, 20)):
             p = gen_regular(rng, a)
             c = [away(rng), away(rng), away(rng)]
             mode = rng.choice(["float", "Float", "Rational"])
